@@ -12,15 +12,21 @@ import (
 	"encoding/hex"
 	"encoding/json"
 	"math/big"
+	"os"
+	"path/filepath"
 	"strings"
 	"testing"
 	"time"
+
+	wasmkeeper "github.com/CosmWasm/wasmd/x/wasm/keeper"
+	wasm "github.com/CosmWasm/wasmd/x/wasm/types"
 
 	abci "github.com/cometbft/cometbft/abci/types"
 	storetypes "github.com/cosmos/cosmos-sdk/store/types"
 	sdk "github.com/cosmos/cosmos-sdk/types"
 	gethcommon "github.com/ethereum/go-ethereum/common"
 	"github.com/ethereum/go-ethereum/core"
+	"github.com/ethereum/go-ethereum/crypto"
 
 	. "verifharness/hx"
 
@@ -29,9 +35,10 @@ import (
 )
 
 type txWorld struct {
-	c    *Chain
-	acc  evmtest.EthPrivKeyAcc
-	keys []storetypes.StoreKey
+	c        *Chain
+	acc      evmtest.EthPrivKeyAcc
+	keys     []storetypes.StoreKey
+	wasmAddr sdk.AccAddress // hello_world_counter instance (script transactions)
 }
 
 func newTxWorld(t *testing.T) *txWorld {
@@ -39,6 +46,19 @@ func newTxWorld(t *testing.T) *txWorld {
 	w.c.BeginBlock(5 * time.Second)
 	w.acc = evmtest.NewEthPrivAcc()
 	if err := w.c.Fund(w.acc.NibiruAddr, Unibi(1e15)); err != nil {
+		t.Fatal(err)
+	}
+	if bz, err := os.ReadFile(filepath.Join(repoRoot(), "x/evm/precompile/test/hello_world_counter.wasm")); err == nil {
+		pk := wasmkeeper.NewDefaultPermissionKeeper(w.c.App.WasmKeeper)
+		ctx := w.c.Ctx().WithGasMeter(sdk.NewInfiniteGasMeter())
+		codeID, _, err := pk.Create(ctx, w.acc.NibiruAddr, bz, &wasm.AccessConfig{Permission: wasm.AccessTypeEverybody})
+		if err != nil {
+			t.Fatalf("wasm create: %v", err)
+		}
+		if w.wasmAddr, _, err = pk.Instantiate(ctx, codeID, w.acc.NibiruAddr, w.acc.NibiruAddr, []byte(`{"count": 0}`), "counter", sdk.Coins{}); err != nil {
+			t.Fatalf("wasm instantiate: %v", err)
+		}
+	} else {
 		t.Fatal(err)
 	}
 	w.c.EndBlock()
@@ -73,7 +93,7 @@ func (w *txWorld) runTx(in c08In) c08Obs {
 	if in.PC < 0 || in.PC > 2 {
 		in.PC = 0
 	}
-	obs := c08Obs{Args: []c08Arg{}}
+	obs := c08Obs{Args: []c08Arg{}, DropEq: true}
 	obs.Method, obs.UnpackOK, obs.Args = decode(in.PC, data)
 	c := w.c
 	c.BeginBlock(5 * time.Second)
@@ -136,10 +156,182 @@ func (w *txWorld) runTx(in c08In) c08Obs {
 	return obs
 }
 
+// scriptCode assembles the runtime code of a transaction script: for every step the calldata is copied from
+// the code into memory and CALLed (value 0) / STATICCALLed with the step's gas; the success flag of step i is
+// kept in memory byte 0x4000+i; the flags are returned.  A failed step is caught: the script goes on.
+func scriptCode(steps []c08Step) []byte {
+	push2 := func(v int) []byte { return []byte{0x61, byte(v >> 8), byte(v)} }
+	sizeOf := func(st c08Step) int {
+		if st.Kind == "static" {
+			return 49
+		}
+		return 51
+	}
+	codeLen := 6
+	for _, st := range steps {
+		codeLen += sizeOf(st)
+	}
+	var code, tail []byte
+	for i, st := range steps {
+		data, _ := hex.DecodeString(st.Data)
+		off := codeLen + len(tail)
+		tail = append(tail, data...)
+		code = append(code, push2(len(data))...)
+		code = append(code, push2(off)...)
+		code = append(code, 0x60, 0x00, 0x39)       // CODECOPY(0, off, len)
+		code = append(code, 0x60, 0x00, 0x60, 0x00) // retSize, retOffset
+		code = append(code, push2(len(data))...)    // argsSize
+		code = append(code, 0x60, 0x00)             // argsOffset
+		if st.Kind != "static" {
+			code = append(code, 0x60, 0x00) // value
+		}
+		pc := st.PC
+		if pc < 0 || pc > 2 {
+			pc = 0
+		}
+		code = append(code, 0x73)
+		code = append(code, precompileAddrs[pc].Bytes()...)
+		g := st.Gas
+		code = append(code, 0x63, byte(g>>24), byte(g>>16), byte(g>>8), byte(g))
+		if st.Kind == "static" {
+			code = append(code, 0xfa)
+		} else {
+			code = append(code, 0xf1)
+		}
+		code = append(code, push2(0x4000+i)...)
+		code = append(code, 0x53) // MSTORE8
+	}
+	code = append(code, 0x60, byte(len(steps)))
+	code = append(code, push2(0x4000)...)
+	code = append(code, 0xf3)
+	if len(code) != codeLen {
+		panic("script layout")
+	}
+	return append(code, tail...)
+}
+
+// runTxSeq delivers ONE signed transaction to a script contract that performs in.Pre and then the call under
+// test (kind "txcall": a CALL issued by the script).  Observed per step: the success flag.  The store digest
+// (unibi bank entries left out) before and after the transaction decides state_eq, which is meaningful when no
+// earlier step writes: the inputs use queries and failing calls as earlier steps, and the case is evaluated
+// only when the call under test failed (gas handed back by a failed call is 0; for a successful one it is not
+// observable from outside the transaction).
+func (w *txWorld) runTxSeq(in c08In) c08Obs {
+	steps := append(append([]c08Step{}, in.Pre...), c08Step{PC: in.PC, Kind: "call", Value: "0", Gas: in.Gas, Data: in.Data})
+	obs := c08Obs{Args: []c08Arg{}, DropEq: true}
+	data, _ := hex.DecodeString(in.Data)
+	obs.Method, obs.UnpackOK, obs.Args = decode(in.PC, data)
+	c := w.c
+	// the script of this case is deployed by a contract-creation transaction in a block of its own
+	runtime := scriptCode(steps)
+	n := len(runtime)
+	initcode := append([]byte{0x61, byte(n >> 8), byte(n), 0x61, 0x00, 0x0f, 0x60, 0x00, 0x39, 0x61, byte(n >> 8), byte(n), 0x60, 0x00, 0xf3}, runtime...)
+	nonceOf := func() uint64 {
+		if a := c.App.AccountKeeper.GetAccount(c.Ctx(), w.acc.NibiruAddr); a != nil {
+			return a.GetSequence()
+		}
+		return 0
+	}
+	c.BeginBlock(5 * time.Second)
+	dn := nonceOf()
+	script := crypto.CreateAddress(w.acc.EthAddr, dn)
+	dmsg, err := c.SignEth(w.acc, &evm.EvmTxArgs{Nonce: dn, GasLimit: 3_000_000 + 300*uint64(n), GasPrice: big.NewInt(1_000_000_000_000), Input: initcode, Amount: big.NewInt(0)})
+	if err != nil {
+		obs.Note = note("sign deploy: " + err.Error())
+		c.EndBlock()
+		return obs
+	}
+	if dr := c.DeliverEth(dmsg); dr.Code != 0 {
+		obs.Note = note("deploy script: " + dr.Log)
+		c.EndBlock()
+		return obs
+	}
+	c.EndBlock()
+	c.BeginBlock(5 * time.Second)
+	defer c.EndBlock()
+	var total uint64 = 1_000_000
+	for _, st := range steps {
+		total += st.Gas + st.Gas/32
+	}
+	to := script
+	msg, err := c.SignEth(w.acc, &evm.EvmTxArgs{Nonce: nonceOf(), GasLimit: total, GasPrice: big.NewInt(1_000_000_000_000), To: &to, Amount: big.NewInt(0)})
+	if err != nil {
+		obs.Note = note("sign: " + err.Error())
+		return obs
+	}
+	d0 := w.digest()
+	var r abci.ResponseDeliverTx
+	if p := Recover(func() { r = c.DeliverEth(msg) }); p != "" {
+		obs.Reached, obs.Class, obs.Fwd, obs.StateEq, obs.CoreEq, obs.Note = true, "panic", in.Gas, true, true, note("escaped DeliverTx: "+p)
+		return obs
+	}
+	d1 := w.digest()
+	obs.Fwd = in.Gas
+	obs.StateEq, obs.CoreEq = d0 == d1, d0 == d1
+	if r.Code != 0 {
+		obs.Note = "tx rejected: " + r.Log
+		return obs
+	}
+	var txData sdk.TxMsgData
+	var resp evm.MsgEthereumTxResponse
+	if err := txData.Unmarshal(r.Data); err != nil || len(txData.MsgResponses) == 0 {
+		obs.Note = "cannot decode tx response"
+		return obs
+	}
+	if err := resp.Unmarshal(txData.MsgResponses[0].Value); err != nil || resp.VmError != "" || len(resp.Ret) != len(steps) {
+		obs.Note = note("script did not finish: " + resp.VmError)
+		return obs
+	}
+	for i, st := range in.Pre {
+		sd, _ := hex.DecodeString(st.Data)
+		so := c08StepObs{Reached: true, Class: "err", Fwd: st.Gas, Args: []c08Arg{}}
+		so.Method, so.UnpackOK, so.Args = decode(st.PC, sd)
+		if resp.Ret[i] == 1 {
+			so.Class = "ok"
+		}
+		obs.Pre = append(obs.Pre, so)
+	}
+	if resp.Ret[len(steps)-1] == 1 {
+		obs.Class, obs.Note = "ok", "call under test succeeded: gas handed back not observable, case not evaluated"
+		return obs
+	}
+	obs.Reached, obs.Class, obs.Left = true, "err", 0
+	return obs
+}
+
+// txSeqInputs: script transactions whose last call fails AFTER partial writes, alone and directly behind queries
+func (w *txWorld) txSeqInputs() []c08In {
+	wABI, ftABI, oABI := abiOf(1), abiOf(0), abiOf(2)
+	wa := w.wasmAddr.String()
+	hx := func(bz []byte) string { return hex.EncodeToString(bz) }
+	inc := wasmExecMsg{wa, []byte(`{"increment":{}}`), []wasmCoin{}}
+	bad := wasmExecMsg{wa, []byte(`{"invalid": "json"}`), []wasmCoin{}}
+	multiLate := hx(mustPack(wABI, "executeMulti", []wasmExecMsg{inc, bad}))
+	multiLate3 := hx(mustPack(wABI, "executeMulti", []wasmExecMsg{inc, inc, bad}))
+	qWasm := c08Step{PC: 1, Kind: "static", Value: "0", Gas: 2_000_000, Data: hx(mustPack(wABI, "query", wa, []byte(`{"count":{}}`)))}
+	qWasmCall := qWasm
+	qWasmCall.Kind = "call"
+	qWho := c08Step{PC: 0, Kind: "static", Value: "0", Gas: 2_000_000, Data: hx(mustPack(ftABI, "whoAmI", gethcommon.HexToAddress("0xa11ce").Hex()))}
+	qOracle := c08Step{PC: 2, Kind: "static", Value: "0", Gas: 2_000_000, Data: hx(mustPack(oABI, "queryExchangeRate", "unibi:uusd"))}
+	refused := c08Step{PC: 1, Kind: "static", Value: "0", Gas: 3_000_000, Data: hx(mustPack(wABI, "execute", wa, []byte(`{"increment":{}}`), []wasmCoin{}))}
+	mk := func(label, data string, pre ...c08Step) c08In {
+		return c08In{PC: 1, Kind: "txcall", Value: "0", Gas: 5_000_000, Data: data, Label: "tx/seq-" + label, Pre: pre}
+	}
+	return []c08In{
+		mk("executeMulti-late", multiLate),
+		mk("query>executeMulti-late", multiLate, qWasm),
+		mk("query>executeMulti-late", multiLate3, qWasmCall),
+		mk("query>executeMulti-late", multiLate, qWho),
+		mk("query>query>executeMulti-late", multiLate, qWasm, qOracle),
+		mk("refused>query>executeMulti-late", multiLate, refused, qWasm),
+		mk("late>executeMulti-late", multiLate, c08Step{PC: 1, Kind: "call", Value: "0", Gas: 5_000_000, Data: multiLate}),
+	}
+}
+
 func (w *world) txInputs() []c08In {
 	var out []c08In
 	for _, in := range w.openers() {
-		if in.Kind != "top" {
+		if in.Kind != "top" || len(in.Pre) > 0 {
 			continue
 		}
 		in.Kind = "tx"
@@ -149,9 +341,9 @@ func (w *world) txInputs() []c08In {
 	// NUL character in a bank denom (panicked before fix e366d9b)
 	ft := abiOf(0)
 	bz, _ := ft.Pack("sendToEvm", "a\x00bc", big.NewInt(1), gethcommon.HexToAddress("0xa11ce").Hex())
-	out = append(out, c08In{0, "tx", "0", 1_000_000, hex.EncodeToString(bz), "tx/sendToEvm-nul"})
+	out = append(out, mkIn(0, "tx", "0", 1_000_000, hex.EncodeToString(bz), "tx/sendToEvm-nul"))
 	bz, _ = ft.Pack("getErc20Address", "tf/\x00/x")
-	out = append(out, c08In{0, "tx", "0", 1_000_000, hex.EncodeToString(bz), "tx/getErc20Address-nul"})
+	out = append(out, mkIn(0, "tx", "0", 1_000_000, hex.EncodeToString(bz), "tx/getErc20Address-nul"))
 	return out
 }
 
@@ -166,7 +358,7 @@ func TestC08Tx(t *testing.T) {
 			if err := json.Unmarshal(raw, &in); err != nil {
 				t.Fatalf("replay input: %v", err)
 			}
-			if in.Kind == "tx" {
+			if strings.HasPrefix(in.Kind, "tx") {
 				inputs = append(inputs, in)
 			}
 		}
@@ -178,7 +370,14 @@ func TestC08Tx(t *testing.T) {
 		inputs = (&world{other: gethcommon.HexToAddress("0x00000000000000000000000000000000000a11ce")}).txInputs()
 	}
 	w := newTxWorld(t)
+	if cfg.Replay == "" {
+		inputs = append(inputs, w.txSeqInputs()...)
+	}
 	for _, in := range inputs {
+		if in.Kind == "txcall" {
+			em.Emit(in, w.runTxSeq(in), nil)
+			continue
+		}
 		em.Emit(in, w.runTx(in), nil)
 	}
 }
